@@ -14,9 +14,14 @@ EncCases == { [k |-> "enc-depth", f |-> f, kind |-> kd, limit |-> l, depth |-> d
 ItemCases == { [k |-> "maxitems", kind |-> kd, maxitems |-> m, count |-> n, refuse |-> RefuseItems(n, m)]
                : kd \in {"array-counted", "array-typed", "object-counted"}, m \in {0, 1, 2, 5}, n \in {0, 1, 2, 3, 5, 6} }
 ClaimCases == { [k |-> "claim", f |-> q[1], name |-> q[2], head |-> q[3], extra |-> e] : q \in Claims, e \in Extra }
+\* K siblings, then a nest that reaches exactly the limit / one beyond (msgpack: the outer array16 announces 9 items: 8 siblings + nest)
+SiblingCases == { [k |-> "sibling", f |-> q[1], sib |-> q[2], item |-> q[3], open |-> q[4], close |-> q[5], count |-> (IF q[1] = "msgpack" THEN 8 ELSE n),
+                   limit |-> l, depth |-> l + dd, accept |-> AcceptDepth(l + dd, l)] : q \in Siblings, n \in {1, 3, 8}, l \in {4, 5, 16}, dd \in {0, 1} }   \* limits above the depth of the siblings themselves (at most 3 with the outer array)
 DeepCases == { [k |-> "deep", op |-> o, depth |-> d] : o \in {"copy", "compare", "dump", "destroy", "parse-destroy"}, d \in {1024} } \cup
-             { [k |-> "deep", op |-> "destroy", depth |-> 1000000], [k |-> "deep", op |-> "destroy-object", depth |-> 200000] }
-All == {x \in DepthCases : x.depth \in Depths(x.limit)} \cup {x \in EncCases : x.depth \in Depths(x.limit)} \cup ItemCases \cup ClaimCases \cup DeepCases
+             { [k |-> "deep", op |-> "destroy", depth |-> 1000000], [k |-> "deep", op |-> "destroy-object", depth |-> 200000],
+               [k |-> "deep", op |-> "destroy-alternating", depth |-> 200000], [k |-> "deep", op |-> "destroy-alternating-ojson", depth |-> 200000],
+               [k |-> "deep", op |-> "copy-alternating", depth |-> 1024], [k |-> "deep", op |-> "dump-alternating", depth |-> 1024] }
+All == {x \in DepthCases : x.depth \in Depths(x.limit)} \cup {x \in EncCases : x.depth \in Depths(x.limit)} \cup ItemCases \cup ClaimCases \cup DeepCases \cup SiblingCases
 Init == phase = 0 /\ c = [k |-> "none"]
 Next == phase = 0 /\ phase' = 1 /\ c' \in All
 Emit == phase = 1 => PrintT(ToJson(c))
